@@ -5,7 +5,9 @@ from . import bootstrap
 from . import exprs as E
 
 
-def _tr(tj, plain=False):
+def _tr(tj, plain=False, sx=None):
+    """`sx` = the spec's "syntax" style (exprs.user_str: natural precedence, as a user types it); None = the fully
+    parenthesised reference form"""
     from pygom import Transition
     kw = {}
     if tj.get("origin") is not None:
@@ -13,21 +15,21 @@ def _tr(tj, plain=False):
     if tj.get("dest") is not None:
         kw["destination"] = tj["dest"]
     if tj.get("eq") is not None:
-        kw["equation"] = E.to_str(tj["eq"])
+        kw["equation"] = E.fmt(tj["eq"], sx)
     mag = tj.get("mag")
     if mag is not None and mag != ["num", "1"]:
-        kw["magnitude"] = E.to_plain_str(mag) if plain else E.to_str(mag)
+        kw["magnitude"] = E.to_plain_str(mag) if plain else E.fmt(mag, sx)
     elif mag is not None and tj.get("explicit_mag"):
         kw["magnitude"] = "1"
     return Transition(transition_type=tj["type"], **kw)
 
 
-def _ev(ej):
+def _ev(ej, sx=None):
     from pygom import Event
     if "transition" in ej and ej["transition"] is not None:
-        return _tr(ej["transition"])
-    rate = E.to_str(ej["rate"]) if ej.get("rate") is not None else None
-    return Event(transition_list=[_tr(t) for t in ej["transitions"]], rate=rate)
+        return _tr(ej["transition"], sx=sx)
+    rate = E.fmt(ej["rate"], sx) if ej.get("rate") is not None else None
+    return Event(transition_list=[_tr(t, sx=sx) for t in ej["transitions"]], rate=rate)
 
 
 def _decl(d):
@@ -69,24 +71,24 @@ def _shape(objs, form):
     return list(objs)
 
 
-def apply_then(model, op, form="add"):
-    """`form`: "add" = the add_* method; "setter_list" / "setter_tuple" / "setter_single" = assignment of a
+def apply_then(model, op, form="add", sx=None):
+    """`sx`: the spec's "syntax" style (see _tr); `form`: "add" = the add_* method; "setter_list" / "setter_tuple" / "setter_single" = assignment of a
     one-element list / tuple / the bare object to the corresponding *_list property (which appends)"""
     k = op["op"]
     if form != "add" and k in SETTER:
-        obj = _ev(op) if k == "add_event" else _tr(op["t"])
+        obj = _ev(op, sx) if k == "add_event" else _tr(op["t"], sx=sx)
         setattr(model, SETTER[k], _shape([obj], form[len("setter_"):]))
         return
     if k == "add_event":
-        model.add_event(_ev(op))
+        model.add_event(_ev(op, sx))
     elif k == "add_transition":
-        model.add_transition(_tr(op["t"]))
+        model.add_transition(_tr(op["t"], sx=sx))
     elif k == "add_birth_death":
-        model.add_birth_death(_tr(op["t"]))
+        model.add_birth_death(_tr(op["t"], sx=sx))
     elif k == "add_ode":
-        model.add_ode(_tr(op["t"]))
+        model.add_ode(_tr(op["t"], sx=sx))
     elif k == "add_derived":
-        model._addDerivedParam(op["name"], E.to_str(op["expr"]))
+        model._addDerivedParam(op["name"], E.fmt(op["expr"], sx))
     elif k == "add_params":
         model.param_list = list(op["names"])
     elif k == "add_states":
@@ -103,19 +105,20 @@ def build(spec, backend="lambda", upto=None, forms=None):
     bootstrap.init()
     from pygom import SimulateOde
     forms = forms or {}
+    sx = spec.get("syntax")          # ignored by the Lean model (an expression is a tree there)
     cf = forms.get("ctor", {})
     c = spec.get("ctor", {})
     kw = {}
     if spec.get("derived"):
-        kw["derived_param"] = [(n, E.to_str(e)) for n, e in spec["derived"]]
+        kw["derived_param"] = [(n, E.fmt(e, sx)) for n, e in spec["derived"]]
     if c.get("event"):
-        kw["event"] = _shape([_ev(e) for e in c["event"]], cf.get("event", "list"))
+        kw["event"] = _shape([_ev(e, sx) for e in c["event"]], cf.get("event", "list"))
     if c.get("transition"):
-        kw["transition"] = _shape([_tr(t) for t in c["transition"]], cf.get("transition", "list"))
+        kw["transition"] = _shape([_tr(t, sx=sx) for t in c["transition"]], cf.get("transition", "list"))
     if c.get("birth_death"):
-        kw["birth_death"] = _shape([_tr(t) for t in c["birth_death"]], cf.get("birth_death", "list"))
+        kw["birth_death"] = _shape([_tr(t, sx=sx) for t in c["birth_death"]], cf.get("birth_death", "list"))
     if c.get("ode"):
-        kw["ode"] = _shape([_tr(t) for t in c["ode"]], cf.get("ode", "list"))
+        kw["ode"] = _shape([_tr(t, sx=sx) for t in c["ode"]], cf.get("ode", "list"))
     st, pa = _decl(spec["state"]), _decl(spec["param"])
     if forms.get("state") == "tuple" and not isinstance(st, str):
         st = tuple(st)
@@ -127,8 +130,40 @@ def build(spec, backend="lambda", upto=None, forms=None):
     ops = spec.get("then", [])
     tf = forms.get("then", [])
     for i, op in enumerate(ops if upto is None else ops[:upto]):
-        apply_then(m, op, tf[i] if i < len(tf) else "add")
+        apply_then(m, op, tf[i] if i < len(tf) else "add", sx=sx)
     return m
+
+
+def spec_strings(spec):
+    """every (expression tree, string handed to pygom) pair of a spec printed with a "syntax" style - for the printer's
+    self-check (exprs.python_value of the string against exprs.ev of the tree)"""
+    sx = spec.get("syntax")
+    out = []
+
+    def tr(tj):
+        if tj.get("eq") is not None:
+            out.append((tj["eq"], E.fmt(tj["eq"], sx)))
+        if tj.get("mag") is not None and tj["mag"] != ["num", "1"]:
+            out.append((tj["mag"], E.fmt(tj["mag"], sx)))
+
+    def ev(ej):
+        if ej.get("transition") is not None:
+            return tr(ej["transition"])
+        if ej.get("rate") is not None:
+            out.append((ej["rate"], E.fmt(ej["rate"], sx)))
+        for t in ej["transitions"]:
+            tr(t)
+
+    for n, e in spec.get("derived", []):
+        out.append((e, E.fmt(e, sx)))
+    c = spec.get("ctor", {})
+    for ej in c.get("event", []): ev(ej)
+    for key in ("transition", "birth_death", "ode"):
+        for tj in c.get(key, []): tr(tj)
+    for op in spec.get("then", []):
+        if op["op"] == "add_event": ev(op)
+        elif "t" in op: tr(op["t"])
+    return out
 
 
 def err_enum(exc):
